@@ -184,22 +184,25 @@ def run(cx):
     # ---------------------------------------------------------------- curve / circle intersections: every edge is tested
     b = cx.fn('geom2::curve2::Curve2::intersection', where='Circle2')
     if b:
-        from vpa import term as T
+        from vpa import term as T, comp as CMP
         okx, why = T.exhaustive_loops(cx, b)
-        tn = b.calls('*Segment2::try_new')
-        outer = max(b.loops(), key=lambda lp: len(lp[1])) if b.loops() else None
-        ok_every = len(tn) == 1 and outer is not None and all(b.dominates(tn[0].bb, x) for x in outer[2])
+        comps = [c for c in CMP.comprehensions(cx, b, cx.retval(b)) if c.get('elem') is not None]
         I = '(itervar (range 0 (sub (call *Curve2::count (param self)) 1)))'
-        ok_seg = len(tn) == 1 and match(f'(call *Curve2::vtx (param self) {I})', cx.arg(tn[0], 0)) is not None and \
-            match(f'(call *Curve2::vtx (param self) (add 1 {I}))', cx.arg(tn[0], 1)) is not None
-        ic = [s_ for s_ in b.calls('*::intersection') if match('(param other)', cx.arg(s_, 0)) is not None]
-        ok_int = len(ic) == 1 and match('(unwrap (call *Segment2::try_new _ _))', cx.arg(ic[0], 1)) is not None and \
-            cx.guarded(b, ic[0].bb, '(is (call *Segment2::try_new _ _) Ok)', True) is not None and \
-            len([a for a, p_ in cx.guards(b, ic[0].bb) if find('(itervar _)', a) is not None]) == 1
-        pushes = cx.push_events(b)
-        ok_push = len(pushes) == 1 and find('(call *::intersection (param other) _)', pushes[0][1]) is not None
-        # (a loop that always breaks on its first cycle is no loop at all in the CFG: both loops must be there, or an iterator chain in their place)
-        n_iter = len(b.loops()) + len(b.calls('Iterator::map|Iterator::flat_map|Iterator::filter_map|Vec::extend'))
+        SEG = f'(call *Segment2::try_new (call *Curve2::vtx (param self) {I}) (call *Curve2::vtx (param self) (add 1 {I})))'
+        ok_seg = ok_int = ok_push = ok_every = False
+        n_iter = 2
+        if len(comps) == 1:
+            c = comps[0]
+            # every point of other.intersection(segment i), for every i whose segment is valid - and under no other condition
+            ok_seg = ok_push = match(f'(index (call *::intersection (param other) (unwrap {SEG})) _)', c['elem']) is not None
+            ok_int = len(c['conds']) == 1 and CMP.has_cond(c, f'(is {SEG} Ok)', True)
+            if c['form'] == 'loop':
+                tn = b.calls('*Segment2::try_new')
+                outer = max(b.loops(), key=lambda lp: len(lp[1])) if b.loops() else None
+                ok_every = len(tn) == 1 and outer is not None and all(b.dominates(tn[0].bb, x) for x in outer[2])
+                n_iter = len(b.loops())
+            else:
+                ok_every = True
         cx.ob('ORDER', 'Curve2::intersection(Circle2):every-edge', okx and n_iter >= 2 and ok_every and ok_seg and ok_int and ok_push,
               'every edge (v[i], v[i+1]), i in 0..count-1, is intersected with the circle whenever it is a valid segment - no edge is skipped on any other condition - and every point found is kept',
               where=b.file, found=f'exhaustive={okx} every-cycle={ok_every} segment={ok_seg} intersect={ok_int} kept={ok_push} ' + '; '.join(why))
